@@ -14,6 +14,7 @@ import (
 	"strings"
 	"sync"
 	"sync/atomic"
+	"time"
 
 	mcp "trpc.group/trpc-go/trpc-mcp-go"
 )
@@ -26,6 +27,8 @@ type stage struct {
 	Code int    // shortRpc
 	Msg  string // shortRpc
 	E    string // fail
+	Wrap string // fail: "" = errors.New(E); "deadline" / "canceled" = an error wrapping context.DeadlineExceeded / context.Canceled
+	//            that does not stem from the HTTP request (E is its text)
 }
 
 func (s stage) calls() bool { return s.B == "pass" || s.B == "modReq" || s.B == "modRes" }
@@ -40,6 +43,9 @@ func (s stage) json() map[string]any {
 		m["msg"] = s.Msg
 	case "fail":
 		m["e"] = s.E
+		if s.Wrap != "" {
+			m["wrap"] = s.Wrap
+		}
 	}
 	return m
 }
@@ -87,6 +93,26 @@ type rec struct {
 	m      *methodSpec
 	base   string // canonical JSON of the method's own result on this kind of server
 	notif  chan struct{}
+	// id-collision rounds: `entered` is closed when this request first enters the chain; the tool handler of a request
+	// waits (bounded) until its partner request — another session, same JSON-RPC id — is inside the chain as well.
+	entered     chan struct{}
+	enteredOnce sync.Once
+	partner     *rec
+}
+
+func (r *rec) markEntered() {
+	if r != nil && r.entered != nil {
+		r.enteredOnce.Do(func() { close(r.entered) })
+	}
+}
+
+func (r *rec) awaitPartner() {
+	if r != nil && r.partner != nil && r.partner.entered != nil {
+		select {
+		case <-r.partner.entered:
+		case <-time.After(2 * time.Second):
+		}
+	}
 }
 
 func (r *rec) add(e event) {
@@ -358,6 +384,7 @@ func (g *registry) middleware(id int) mcp.Middleware {
 				}
 				m, base = r.m, r.base
 			}
+			r.markEntered()
 			sid, csid := sids(ctx)
 			cm := ctxMods(ctx)
 			g.record(r, event{T: "b", ID: id, Mods: intList(pm["mods"]), CMods: cm, HasP: true, Tok: tokOf(ctx), Sid: sid, CSid: csid})
@@ -385,6 +412,12 @@ func (g *registry) middleware(id int) mcp.Middleware {
 				e.Error.Message = beh.Msg
 				return e, nil
 			case "fail":
+				switch beh.Wrap {
+				case "deadline":
+					return nil, fmt.Errorf("budget exceeded: %w", context.DeadlineExceeded)
+				case "canceled":
+					return nil, fmt.Errorf("upstream gave up: %w", context.Canceled)
+				}
 				return nil, errors.New(beh.E)
 			default:
 				res, err := next(ctx, req)
@@ -399,6 +432,7 @@ func (g *registry) toolHandler(fail bool) func(ctx context.Context, req *mcp.Cal
 	return func(ctx context.Context, req *mcp.CallToolRequest) (*mcp.CallToolResult, error) {
 		nonce, _ := req.Params.Arguments["nonce"].(string)
 		r := g.find(nonce, ctx)
+		r.awaitPartner()
 		sid, csid := sids(ctx)
 		mods := intList(req.Params.Arguments["mods"])
 		g.record(r, event{T: "h", Mods: mods, CMods: ctxMods(ctx), HasP: true, Tok: tokOf(ctx), Sid: sid, CSid: csid})
